@@ -22,7 +22,7 @@ from harness import common as cm
 from harness import c02
 
 PID = 'C04'
-BOUNDS = {'quick': dict(M='1..3', K='1..4 (IMEX <=3)', node_families=2, z='all reals with non-zero denominators', rk_classes=26), 'thorough': dict(M='1..4 (5 for LEGENDRE with RADAU-RIGHT or GAUSS)', K='1..7', node_families=6, cross_check_interval='z in [-1/4, 1/4]')}
+BOUNDS = {'quick': dict(M='1..3', K='1..4 (IMEX <=3)', node_families=2, z='all reals with non-zero denominators', rk_classes=26), 'thorough': dict(M='1..4 (5 for LEGENDRE with RADAU-RIGHT or GAUSS; IMEX: 1..3)', K='1..7', node_families=6, cross_check_interval='z in [-1/4, 1/4]')}
 TOL = Fraction(1, 10**12)
 
 
@@ -60,6 +60,8 @@ def tasks(tier, seed):
                         continue
                     if M == 5 and (nt != 'LEGENDRE' or qt not in ('RADAU-RIGHT', 'GAUSS')):
                         continue  # five nodes only for the two most used rules (solver time)
+                    if kind == 'imex_1st_order' and M >= 4:
+                        continue  # two symbolic coefficients: the identity queries with four nodes take minutes each (measured), three nodes are the bound here
                     for qd in qds:
                         if quick and qt in ('GAUSS', 'RADAU-LEFT') and (qd[0] not in ('LU', 'EE') or qd[-1] == 'LF' or M == 1):
                             continue
